@@ -96,6 +96,15 @@ class Ctx:
             return False
         return any(ch["where"].endswith(":" + funcname) and "conds" in ch and ch["chosen"] == 0 for ch in self.eng.choice_log)
 
+    def rng_inject(self, tensors):
+        """the next random draws of the library (in call order) return these tensors instead of noise"""
+        q = self.eng.rng_queue if self.symbolic else self._replay_rng.queue
+        q.extend(tensors)
+
+    def rng_shapes(self):
+        """shapes of all float random draws made so far"""
+        return list(self.eng.rng_shapes if self.symbolic else self._replay_rng.shapes)
+
     def shadow(self, t):
         """concrete value of a tensor at the current witness / replay point, without going through the symbolic mode"""
         with _disable_current_modes():
@@ -239,6 +248,8 @@ class ReplayRNG(TorchDispatchMode):
         super().__init__()
         self.model = model
         self.k = 0
+        self.queue = []
+        self.shapes = []
 
     def __torch_dispatch__(self, func, types, args=(), kwargs=None):
         from .ops import RNG_OPS, opname
@@ -247,7 +258,12 @@ class ReplayRNG(TorchDispatchMode):
         name = opname(func)
         if name in RNG_OPS and name != "randperm":
             tgt = args[0] if name.endswith("_") else out
-            if tgt.dtype in FLOAT_DT:
+            if tgt.dtype in FLOAT_DT and self.queue:
+                self.shapes.append(tuple(tgt.shape))
+                inj = self.queue.pop(0)
+                tgt.detach().copy_(inj.detach().reshape(tgt.shape).to(tgt.dtype))
+            elif tgt.dtype in FLOAT_DT:
+                self.shapes.append(tuple(tgt.shape))
                 self.k += 1
                 base = f"rng_{name}!{self.k}"
                 vals = [self.model.get(f"{base}[{i}]") for i in range(tgt.numel())]
@@ -312,7 +328,8 @@ def replay(harness, params, model):
     with warnings.catch_warnings():
         warnings.simplefilter("ignore")
         try:
-            with ReplayRNG(model):
+            ctx._replay_rng = ReplayRNG(model)
+            with ctx._replay_rng:
                 harness(ctx)
         except Exception as e:
             err = f"{type(e).__name__}: {e}"
